@@ -5,6 +5,7 @@
 -/
 import Dlismodel.Model.Convert
 import Dlismodel.Model.Defaults
+import Dlismodel.Model.Dataset
 import Dlismodel.Standard
 import Dlismodel.StandardConvs
 namespace Dlis
@@ -212,5 +213,19 @@ def handleDflt : List String → String
       showErrOr (fun p => s!"ok {showDim p.1} {showDim p.2.1} {if p.2.2 then 1 else 0}") (channelDefaults dimension limit axes ln)
     | _, _, _, _ => "bad"
   | _ => "bad"
+
+/-- `dsn <name> <explicit|~> <1|0> …`: data set names of a sequence of add_channel calls -/
+def handleDsn (ts : List String) : String :=
+  let rec go (ts : List String) (acc : List (PStr × Option PStr × Bool)) : Option (List (PStr × Option PStr × Bool)) :=
+    match ts with
+    | [] => some acc.reverse
+    | n :: e :: ok :: rest => match pCps n, pOpt pCps e with
+      | some n, some e => go rest ((n, e, ok == "1") :: acc)
+      | _, _ => none
+    | _ => none
+  match go ts [] with
+  | some calls => " ".intercalate ((datasetNames [] calls).map fun r => match r with
+      | .ok d => "ok:" ++ showCpsC d | .error e => "err:" ++ e.name)
+  | none => "bad"
 
 end Dlis
